@@ -29,8 +29,30 @@ func main() {
 	os.WriteFile(filepath.Join(dir, "yield.go"), []byte(`// Package verifyield is the scheduling hook inserted by yieldins (scratch copies only).
 package verifyield
 
+import "runtime"
+
 // Hook, when set, is called at every yield point.
 var Hook func(site string)
+
+// BlockedHook, when set, is called when a lock the scheduler knows about could not be taken: the
+// caller must not be resumed before somebody else has run.
+var BlockedHook func(site string)
+
+// Lock takes a sync.Mutex / sync.RWMutex without ever blocking a parked-goroutine scheduler: the
+// task holding the lock may be parked at a yield point, so waiting for real would hang the run.
+func Lock(try func() bool, lock func(), site string) {
+	if Hook == nil {
+		lock()
+		return
+	}
+	for !try() {
+		if b := BlockedHook; b != nil {
+			b(site)
+		} else {
+			runtime.Gosched()
+		}
+	}
+}
 
 // Yield is a scheduling point.
 func Yield(site string) {
@@ -58,12 +80,43 @@ func instrument(path, rel string) (int, error) {
 		return 0, err
 	}
 	count := 0
+	locks := 0
 	call := func(pos token.Pos) ast.Stmt {
 		count++
 		site := rel + ":" + strconv.Itoa(fset.Position(pos).Line)
 		return &ast.ExprStmt{X: &ast.CallExpr{
 			Fun:  &ast.SelectorExpr{X: ast.NewIdent("verifyield"), Sel: ast.NewIdent("Yield")},
 			Args: []ast.Expr{&ast.BasicLit{Kind: token.STRING, Value: strconv.Quote(site)}},
+		}}
+	}
+	// X.Lock() / X.RLock() as a statement becomes verifyield.Lock(X.TryLock, X.Lock, site): a task
+	// that is parked while holding a mutex must not make another task block for real. (A receiver
+	// without a Try method fails to compile; build.sh then retries with VERIF_YIELD_NOLOCKS=1.)
+	lockCall := func(s ast.Stmt) ast.Stmt {
+		if os.Getenv("VERIF_YIELD_NOLOCKS") != "" {
+			return s
+		}
+		es, ok := s.(*ast.ExprStmt)
+		if !ok {
+			return s
+		}
+		ce, ok := es.X.(*ast.CallExpr)
+		if !ok || len(ce.Args) != 0 {
+			return s
+		}
+		sel, ok := ce.Fun.(*ast.SelectorExpr)
+		if !ok || (sel.Sel.Name != "Lock" && sel.Sel.Name != "RLock") {
+			return s
+		}
+		locks++
+		site := rel + ":" + strconv.Itoa(fset.Position(s.Pos()).Line)
+		return &ast.ExprStmt{X: &ast.CallExpr{
+			Fun: &ast.SelectorExpr{X: ast.NewIdent("verifyield"), Sel: ast.NewIdent("Lock")},
+			Args: []ast.Expr{
+				&ast.SelectorExpr{X: sel.X, Sel: ast.NewIdent("Try" + sel.Sel.Name)},
+				&ast.SelectorExpr{X: sel.X, Sel: ast.NewIdent(sel.Sel.Name)},
+				&ast.BasicLit{Kind: token.STRING, Value: strconv.Quote(site)},
+			},
 		}}
 	}
 	var rewrite func(list []ast.Stmt) []ast.Stmt
@@ -76,6 +129,26 @@ func instrument(path, rel string) (int, error) {
 			out = append(out, s)
 		}
 		return out
+	}
+	// lock calls are rewritten everywhere, also inside range bodies
+	relock := func(list []ast.Stmt) {
+		for i, s := range list {
+			list[i] = lockCall(s)
+		}
+	}
+	ast.Inspect(f, func(n ast.Node) bool {
+		switch b := n.(type) {
+		case *ast.BlockStmt:
+			relock(b.List)
+		case *ast.CaseClause:
+			relock(b.Body)
+		case *ast.CommClause:
+			relock(b.Body)
+		}
+		return true
+	})
+	if locks > 0 {
+		fmt.Fprintf(os.Stderr, "yieldins: %s: %d lock calls rewritten\n", rel, locks)
 	}
 	// the block of a switch/select holds clauses, not statements
 	skip := map[*ast.BlockStmt]bool{}
